@@ -31,11 +31,13 @@ def cell_violates(kind, spec, col, x, eps):
         return True
     if kind == 'sign' and t in ('string', 'date'):
         return True
+    if kind in ('min', 'max'):
+        nn = [y for y in col['cells'] if y is not None]
+        if nn and C.coarse(nn[0]) != C.coarse(v):
+            return True             # a bound of another kind than the field's values: every record
     if x is None:
         return None
     if kind in ('min', 'max'):
-        if C.coarse(x) != C.coarse(v):
-            return True
         one = dict(col, cells=[x])
         return not C.meaning(kind, spec, one, eps, False)
     if kind in ('min_length', 'max_length'):
@@ -89,10 +91,9 @@ def run(ctx):
                         any(x is not None and math.isinf(x) for x in col['cells']):
                     bad = True
                 for k in ('min', 'max'):
-                    if k in cs and cs[k]['value'] is not None and col['cells'] and \
-                            any(x is not None for x in col['cells']) and \
-                            C.coarse([x for x in col['cells'] if x is not None][0]) != C.coarse(cs[k]['value']):
-                        bad = True      # incompatible bound: pandas raises on the vector comparison path
+                    if k in cs and cs[k]['value'] is not None and col['type'] == 'date' and \
+                            C.coarse(cs[k]['value']) != 'date':
+                        bad = True      # a non-date bound on a field declared as date is not a loadable constraint set
             for nm, col in case['cols'].items():
                 if col['variant'] == 'float32':
                     # NumPy compares a float32 column with the bound converted to float32 (weak scalar promotion);
